@@ -32,7 +32,7 @@ def run(rep, tier):
     axis_order(rep, F)
     radius_use(rep, F)
     rhumb_wrap(rep, F)
-
+    same_measure(rep, F)
 
 def bearings(rep, F):
     rep.rule("R16.1", "Bearing::bearing = (x + 360) % 360 in every metric space")
@@ -242,3 +242,40 @@ def rhumb_wrap(rep, F):
         rep.ok("R16.5", "delta-lambda-wrap", sample=sorted(seen))
     else:
         rep.bad("R16.5", "delta-lambda-wrap:rows", "wrap table has only the rows %s" % sorted(seen), where=fn.loc())
+
+
+def same_measure(rep, F):
+    """R16.6: a GeodesicMeasure carries its own ellipsoid; every geodesic computation inside its methods must go through that instance
+    (`self`, or `self.geoid` for the raw direct / inverse problems), never through the WGS84 static or a freshly built measure."""
+    from ..symex import bare
+    rep.rule("R16.6", "inside GeodesicMeasure's methods every Bearing / Distance / Destination / InterpolatePoint call has receiver `self` and every direct / inverse call uses `self.geoid`")
+    fns = F.find(r"geodesic::GeodesicMeasure<.*>>::\w+$", crates=("geo",))
+    n = 0
+    for fn in fns:
+        if fn.kind == "Closure":
+            continue
+        try:
+            ps = opaque(F, loop_bound=1).run(fn)
+        except Unanalysable as e:
+            rep.bad("R16.6", "unanalysable:" + short(fn.path), str(e), where=fn.loc())
+            continue
+        bad = None
+        for p in ps:
+            for c in calls_of(p):
+                if not c[2]:
+                    continue
+                recv = bare(c[2][0])
+                if re.search(r"line_measures::(bearing::Bearing|distance::Distance|destination::Destination|interpolate_point::InterpolatePoint|length::)", c[1]):
+                    n += 1
+                    if recv != "a1":
+                        bad = "%s is called on %s instead of self" % (c[1].rsplit("::", 1)[-1], recv[:60])
+                elif re.search(r"geographiclib_rs::geodesic::(DirectGeodesic|InverseGeodesic)", c[1]):
+                    n += 1
+                    if recv not in ("deref(a1.geoid)", "a1.geoid"):
+                        bad = "%s is solved on %s instead of self.geoid" % (c[1].rsplit("::", 1)[-1], recv[:60])
+        if bad:
+            rep.bad("R16.6", "foreign-measure:" + fn.path.rsplit("::", 1)[-1], "%s: %s — with a custom ellipsoid the result is computed on a different figure of the Earth than the distance / bearing "
+                    "it is combined with" % (short(fn.path), bad), where=fn.loc())
+        else:
+            rep.ok("R16.6", "self-measure:" + short(fn.path))
+    rep.floor("R16.6", "metric calls inside GeodesicMeasure", n, 8)
